@@ -55,3 +55,21 @@ Proof. vm_compute. split; reflexivity. Qed.
 Example empty_text_api_panics :
   prounds true true 1 1 [3%Z] pdefault [(0%nat, [])] = PPanic S_path_indices_col.
 Proof. vm_compute. reflexivity. Qed.
+
+(* ---- resolve_best_path / accessors: "aあb" = 61 E3 81 82 62; the node of あ resolves to characters [1,2), bytes [1,4);
+        a node ending behind the text indexes mod_c2b out of range (None = panic) ---- *)
+From SudachiVerif Require Import Model.Buffer Proofs.AccessorsNoPanic.
+Example resolve_node_example :
+  resolve_node [97; 227; 129; 130; 98]%N (mkNode 1 2 0 0 0) = Some (mkRN 1 2 1 4, [227; 129; 130]%N)
+  /\ resolve_node [97; 227; 129; 130; 98]%N (mkNode 2 4 0 0 0) = None.
+Proof. vm_compute. split; reflexivity. Qed.
+Example accessors_example :
+  match start_build the_cfg [97; 227; 129; 130; 98]%N with
+  | Buffer.Ok s => morpheme_begin s (mkRN 1 2 1 4) = Some 1%nat /\ morpheme_end s (mkRN 1 2 1 4) = Some 4%nat
+                   /\ morpheme_begin_c the_cfg s (mkRN 1 2 1 4) = Some 1%nat /\ morpheme_end_c the_cfg s (mkRN 1 2 1 4) = Some 2%nat
+                   /\ morpheme_surface s (mkRN 1 2 1 4) = Some [227; 129; 130]%N
+                   (* a node whose byte range is off a character boundary: the debug assertion of orig_slice *)
+                   /\ morpheme_surface s (mkRN 1 2 2 4) = None
+  | _ => False
+  end.
+Proof. vm_compute. repeat split; reflexivity. Qed.
